@@ -158,6 +158,9 @@ func runCheck(args []string, repo, specs, tier string, jobs int, verbose bool) i
 				for _, e := range fv.errs {
 					errs = append(errs, funcKey(fn)+": "+e)
 				}
+				for _, wmsg := range fv.warns {
+					fmt.Println("WARNING:", wmsg)
+				}
 			}
 			if matched == 0 {
 				errs = append(errs, fmt.Sprintf("STALE: run %v matches no function", run.Fn))
